@@ -226,6 +226,30 @@ func (sb *submitter) heldSince(w *c13World, t time.Duration) bool {
 	return w.ls != nil && sb.heldAt >= t
 }
 
+// heldWithRetryAfter: lockstep spec only. sb, whose own last outcome carried a Retry-After, was held by the driver
+// until now - possibly in front of the bookkeeping of that outcome, which arms the back-off of the *shared* client at
+// "now + Retry-After", now being the instant at which the bookkeeping finally runs. Every submitter of the client may
+// then legitimately be delayed until that instant: the justification J moves, and with it the latest admissible next
+// attempt of everybody who is waiting. (Found by the thorough tier: Retry-After 2^31 s, submitter held for 131 s,
+// another submitter's attempt 131 s "late".)
+func (w *c13World) heldWithRetryAfter(sb *submitter, now time.Duration) {
+	if sb.E < 0 || sb.E <= sb.T {
+		return
+	}
+	j := now + (sb.E - sb.T)
+	if j <= w.J {
+		return
+	}
+	w.J = j
+	for _, o := range w.subs {
+		if o.phase == phRetry || o.phase == phEither {
+			if l := w.J + capJitter; l > o.L {
+				o.L = l
+			}
+		}
+	}
+}
+
 // lockReturns releases a submitter the driver held at a lock or statement boundary. Like a logger that returns
 // late, the hold is the environment's delay, not the client's: whatever the client computes next it computes from
 // now, so the latest admissible next attempt moves.
@@ -242,6 +266,7 @@ func (w *c13World) lockReturns(p *kernel.Parked) {
 		if sb.E >= 0 && sb.E-sb.T > own {
 			own = sb.E - sb.T
 		}
+		w.heldWithRetryAfter(sb, s.Now())
 		if l := maxDur(s.Now(), w.J) + own + capJitter; l > sb.L {
 			sb.L = l
 		}
@@ -1043,6 +1068,7 @@ func (w *c13World) AfterStep(s *kernel.Sim) {
 			sb.heldAt = now
 			// held, or waiting for a lock that somebody held has: whatever it computes next it computes from now on
 			if sb.phase == phRetry || sb.phase == phEither {
+				w.heldWithRetryAfter(sb, now)
 				if l := maxDur(now, w.J) + capBackoff + capJitter; l > sb.L {
 					sb.L = l
 				}
